@@ -437,6 +437,7 @@ func gen(tier string, seed int64) []mon.Case {
 		add("c17/static/"+n, Static{Kind: "static", Platform: n})
 		add("c17/options/"+n, Static{Kind: "options", Platform: n})
 		add("c17/genvariants/"+n, Static{Kind: "genvariants", Platform: n})
+		add("c17/loadorder/"+n, Static{Kind: "loadorder", Platform: n})
 	}
 	add("c17/variant/cumulus_linux/root_login", Static{Kind: "variant", Platform: "cumulus_linux", Variant: "root_login"})
 	add("c17/variant/cumulus_linux/no-such-variant", Static{Kind: "missing-variant", Platform: "cumulus_linux"})
@@ -500,6 +501,14 @@ func gen(tier string, seed int64) []mon.Case {
 				}
 			}
 		}
+		// the base definition must drive its device after a variant was loaded in the same process
+		dyn("cumulus_linux/after-variant-root_login", Dyn{Source: "asset", Platform: "cumulus_linux", Preload: "root_login", Start: "configuration", From: "exec",
+			Targets: []string{"configuration"}, CloseAt: "configuration"})
+		for _, n := range names {
+			lv := keysOf(canon[n].Levels)
+			dyn(n+"/after-generated-variant", Dyn{Source: "asset", Platform: n, Preload: "gen", Start: lv[(k+1)%len(lv)], From: canon[n].Default, Targets: rotate(lv, k+1),
+				CloseAt: lv[k%len(lv)]})
+		}
 		sessions("asset", "cumulus_linux", "root_login", []string{"configuration", "exec"})
 		sessions("fixture", "test-platform.yaml", "", keysOf(fixtureCanon["test-platform.yaml"]))
 	}
@@ -532,6 +541,8 @@ func run(c mon.Case) mon.Result {
 		return runOptions(s.Platform)
 	case "genvariants":
 		return runGenVariants(s.Platform)
+	case "loadorder":
+		return runLoadOrder(s.Platform)
 	case "variant", "fixture", "missing-variant":
 		return runVariant(s)
 	}
